@@ -267,7 +267,35 @@ def nan_template(ctx, rule="R18.4"):
         ctx.check(not over, rule, "%s::%s" % (c.module.relpath, c.name), "range/NaN handling of the base class is not overridden: %s" % over, "override")
 
 
+def fit_vector_agreement(ctx, rule="R18.5"):
+    """The optimiser's parameter vector is packed and unpacked with one and the same name list."""
+    prog = ctx.prog
+    fit = prog.func(NB, "Normalizer.fit")
+    site = NB + "::Normalizer.fit"
+    zips = []
+    for n in ast.walk(fit):
+        if isinstance(n, ast.Call) and getattr(n.func, "id", "") == "zip" and len(n.args) == 2:
+            zips.append((ast.unparse(n.args[0]), ast.unparse(n.args[1])))
+    packs = [ast.unparse(g.iter) for n in ast.walk(fit) if isinstance(n, ast.ListComp) and "getattr(self" in ast.unparse(n.elt) for g in n.generators if isinstance(n.elt, ast.Call)]
+    names = {z[0] for z in zips} | set(packs)
+    ctx.check(len(zips) >= 2 and len(names) == 1, rule, site,
+              "objective (unpack), start vector (pack) and write-back of the optimum all use the same list of free parameter names: %s / %s" % (zips, packs), "one-name-list")
+    pn = [n for n in ast.walk(fit) if isinstance(n, ast.Assign) and ast.unparse(n.targets[0]) == "para_names"]
+    ok = len(pn) == 1 and ast.unparse(pn[0].value) == "[name for name in all_names if name not in skip]"
+    an = [n for n in ast.walk(fit) if isinstance(n, ast.Assign) and ast.unparse(n.targets[0]) == "all_names"]
+    ok = ok and len(an) == 1 and ast.unparse(an[0].value) == "sorted(self.default_parameter)"
+    ctx.check(ok, rule, site, "free parameters = all parameters (sorted) minus the skipped ones", "free-names")
+    ret = [ast.unparse(s.value) for s in fit.body if isinstance(s, ast.Return)]
+    ctx.check(ret == ["{name: getattr(self, name) for name in all_names}"], rule, site, "the returned dictionary reports the model's own parameter values after the write-back", "result-dict")
+    obj = [n for n in ast.walk(fit) if isinstance(n, ast.FunctionDef) and n.name == "_neg_kllf"]
+    ok = len(obj) == 1 and [ast.unparse(s.value) for s in obj[0].body if isinstance(s, ast.Return)] == ["-self.kernel_loglikelihood(dat)"]
+    ctx.check(ok, rule, site, "the objective is the negative kernel log-likelihood of the data", "objective")
+    opt = sorted(ast.unparse(n.func) for n in ast.walk(fit) if isinstance(n, ast.Call) and ast.unparse(n.func).startswith("spo."))
+    ctx.check(opt == ["spo.minimize", "spo.minimize_scalar"], rule, site, "one free parameter -> scalar minimiser, several -> general minimiser", "optimisers")
+
+
 def run(ctx):
+    fit_vector_agreement(ctx)
     range_domain(ctx)
     mirror_pipelines(ctx)
     paired_branches(ctx)
